@@ -16,17 +16,19 @@ sys.path.insert(0, os.path.join(vf.VERIF, 'gen'))
 import polys
 
 META = dict(
-    text=('Coq theorems over a complete executable model of detail::Minkowski: for ALL patterns and paths the quads it '
-          'builds are exactly the parallelograms spanned by every path edge (closing edge iff closed) and every cyclic '
-          'pattern edge, a+b resp. a-b, in the code\'s order, each possibly reversed; every emitted quad has non-negative '
-          'exact area for |coordinates| <= 2^24 (binary64 Area exact there); empty pattern or path gives no quads; no '
-          'out-of-bounds access. The final detail::Union (Clipper64 NonZero union of the quads) is not proved: it is '
-          'validated by a Coq-extracted sampled checker (sound by theorem) on generated inputs in general position, '
-          'open and closed paths, convex / non-convex / self-intersecting patterns, 5 coordinate regimes up to 2^40, '
-          'Path64 and PathD overloads.'),
-    note=('Trusted: Coq kernel; extraction; harness/driver glue. Proved for the quad construction; "Clipper\'s Union of '
-          'the quads is their NonZero union within 2 units" is validated by sampling (grid + neighbourhoods of vertices), '
-          'not proved. The model is tied to the C++ by exact equality of the quads on every generated case.'),
+    text=('Coq theorems over a complete executable model of detail::Minkowski (and of the binary64 Area/IsPositive it calls): for ALL '
+          'patterns and paths the quads it builds are exactly the parallelograms [a+b, a\'+b, a\'+b\', a+b\'] (a-b for the difference) '
+          'spanned by every path edge (closing edge iff closed) and every cyclic pattern edge, in the code\'s order, each possibly '
+          'reversed; the reversal test is exact and every emitted quad has exact area >= 0 for |coordinates| <= 2^24 (refuted at 2^27: '
+          'slivers); empty pattern or path gives no quads; no out-of-bounds access, no int64 overflow up to 2^60; the cross-product '
+          'membership test of the specification implies winding number +-1 around a parallelogram. The final detail::Union (Clipper64 '
+          'NonZero union of the quads) is NOT proved: it is validated by a Coq-extracted sampled checker (sound by theorem) on generated '
+          'inputs in general position: open and closed paths, convex / non-convex / self-intersecting patterns, 6 coordinate regimes up '
+          'to 2^40, near-parallel slivers, 1/2-point inputs, Path64 overloads and PathD overloads (the PathD result is checked exactly '
+          'in dyadic arithmetic and compared bit for bit with the de-scaled Path64 result through C16\'s scaling model).'),
+    note=('Trusted: Coq kernel; extraction; harness/driver glue. Proved for the quad construction; "Clipper\'s Union of the quads is '
+          'their NonZero union within 2 units" is validated by sampling (grid + parallelogram centres + neighbourhoods of vertices), not '
+          'proved. The model is tied to the C++ by exact equality of the quads (order and orientation) on every generated case.'),
     technique='Coq proof over a faithful executable model + exact model/implementation correspondence + Coq-extracted specification oracle',
     category='proof')
 
@@ -705,7 +707,8 @@ def explore_d(ctx, tools, cases, cap, n_region):
                 why = 'PathD result is not the de-scaled Path64 result on the scaled inputs: %s vs %s' % (p['rd'], dm)
         if why:
             mism.append((c, why))
-        mp, ma = parse_ok_paths(s1), parse_ok_paths(s2)
+        mp = vf.parse_paths(['1'] + s1.split()[1:], 0)[0] if s1.startswith('OK ') else None
+        ma = vf.parse_paths(['1'] + s2.split()[1:], 0)[0] if s2.startswith('OK ') else None
         if len(reg_cases) < n_region and mp and ma and max([abs(v) for pt in mp[0] + ma[0] for v in pt] + [0]) <= LIM:
             # specification inputs = the MODEL's scaled pattern/path (not the harness' values)
             reg_cases.append(dict(sum=c['sum'], closed=c['closed'], pattern=mp[0], path=ma[0], regime=c['regime'], k=c['k'],
@@ -815,10 +818,10 @@ def run(ctx):
     quick = ctx.quick
     n_area = 6000 if quick else 200000
     n_tie = 8000 if quick else 300000
-    n_reg = 96 if quick else 1500
-    n_small = 24 if quick else 300
-    n_d = 200 if quick else 6000
-    n_dreg = 24 if quick else 300
+    n_reg = 144 if quick else 1500
+    n_small = 30 if quick else 300
+    n_d = 200 if quick else 4000
+    n_dreg = 30 if quick else 200
     cap = 420 if quick else 900
     if search:
         n_reg, n_small, n_dreg, n_tie = n_reg * 3, n_small * 3, n_dreg * 3, n_tie * 3
